@@ -84,6 +84,9 @@ def spaces(tier):
         out.append(cs.db_space(4, combo, 1))
     for combo in cs.LONGSTEP:
         out.append(cs.db_space(3 if tier == 'quick' else 4, combo, 1))
+    for k, t0 in enumerate(cs.FAR_T0):
+        out.append(cs.db_space(3 if tier == 'quick' else 4, cs.COMBOS[k], 1,
+                               t0=t0))
     if tier == 'quick':
         out.append(cs.long_space(1100, cs.COMBOS[2]))
         out.append(cs.long_space(8300, cs.COMBOS[2], around=(500, 512)))
